@@ -15,6 +15,7 @@ def check(run):
         ec.run_family(run, 'C14-ragged-with-None', 'Q_C14ragN', 'R_w2N', maxA=3, opts={'warnings': True})
     ec.run_family(run, 'C14-ragged-incl-empty-record', 'Q_C14plain', 'R_w2N', maxA=3, opts={'warnings': True})
     ec.run_family(run, 'C14-join', 'Q_C14join', 'R_poison' if quick else 'R_w2', recsB='R_w2N' if not quick else 'R_q4', maxA=2, maxB=2, opts={'warnings': True})
+    ec.run_family(run, 'C14-join-key-missing-in-short-record', 'Q_C04selQ', 'R_q4', recsB='R_q4', maxA=2, maxB=1, opts={'warnings': True})
     ec.run_family(run, 'C14-aggregate-misuse', 'Q_C03bad', 'R_num', maxA=2)
     ec.run_family(run, 'C14-text', 'Q_C14text', 'R_poison', maxA=2, hdrmodes=(False, True))
     ec.run_family(run, 'C14-text-join', 'Q_C14textjoin', 'R_2x2', recsB='R_2x2', maxA=1, maxB=1, hdrmodes=(False, True))
